@@ -596,6 +596,10 @@ func (fr *Frame) logCall(st, pre *State, key, recv string, args []Val, res []Val
 	for _, a := range args {
 		if a.T != nil && isString(a.T) && a.Re == nil {
 			strs = append(strs, vc.term(pre, a))
+		} else if a.T != nil && vc.S.Sort(a.T) == "Slice_String" {
+			// a (variadic) list of strings: its first two elements are recorded after the plain string arguments
+			t := vc.term(pre, a)
+			strs = append(strs, sliceAt("Slice_String", t, "0"), sliceAt("Slice_String", t, "1"))
 		} else if a.T != nil && vc.S.Sort(a.T) == "Slice_Int" {
 			// []byte payloads are recorded as the string they were converted from
 			vc.declareFun("string_of_bytes", []string{"Slice_Int"}, "String")
